@@ -348,6 +348,11 @@ func doSecondaryGet(db kv.DB, req *proto.GetRequest) (primaryKey string, seconda
 	} else {
 		// For all the other cases, we set the iterator on >=
 		it.SeekGE(searchKey)
+		if req.ComparisonType == proto.KeyComparisonType_FLOOR && !it.Valid() {
+			// There is nothing at or after the search key in the whole database: the
+			// floor, if there is one, is the last entry before the search key
+			it.SeekLT(searchKey)
+		}
 	}
 
 	// Only the entries below this prefix belong to the requested index
